@@ -22,7 +22,7 @@ vars == <<l, s, bad, seg, ctx, fr, H, Dur, acc>>
 (* fr: the last structural snapshot's frame and what happened since ("none": nothing, *)
 (* "failed": only failed calls, "other": anything else) - a failed call must leave the  *)
 (* decoded disk, the allocators and the caches' content unchanged (C09).                *)
-NoFr == [valid |-> FALSE, frame |-> <<>>, since |-> "none"]
+NoFr == [valid |-> FALSE, frame |-> <<>>, since |-> "none", nmut |-> 0]
 
 (* ctx: what happened earlier in this segment; a rejection is also attributed to  *)
 (* the properties that speak about "everything observable afterwards".            *)
@@ -98,10 +98,10 @@ Consume ==
           /\ H' = IF e.keephist THEN <<InitState(e.root, e.unstable).objs>> ELSE <<>>
           /\ Dur' = IF e.keephist THEN <<1>> ELSE <<>>
      ELSE /\ seg' = seg
-          /\ fr' = IF e.ev = "snap" THEN [valid |-> e.idle /\ e.running, frame |-> FS!Frame(e), since |-> "none"]
+          /\ fr' = IF e.ev = "snap" THEN [valid |-> e.idle /\ e.running, frame |-> FS!Frame(e), since |-> "none", nmut |-> 0]
                    ELSE IF e.ev = "call" /\ e.st # "OK" /\ fr.since \in {"none", "failed"} THEN [fr EXCEPT !.since = "failed"]
                    ELSE IF e.ev = "call" /\ e.proc \in {"GETATTR", "LOOKUP", "ACCESS", "READLINK", "READDIR", "READDIRPLUS", "FSINFO", "PATHCONF", "NULL"} THEN fr
-                   ELSE [fr EXCEPT !.since = "other"]
+                   ELSE [fr EXCEPT !.since = "other", !.nmut = IF e.ev = "call" THEN @ + 1 ELSE @ + 2]
           /\ ctx' = IF e.ev = "call" /\ e.st # "OK" /\ Mutating(e) THEN ctx \cup {"failed"}
                     ELSE IF e.ev = "restart" THEN ctx \cup {"restart"}
                     ELSE IF e.ev = "crash" THEN ctx \cup {"crash"} ELSE ctx
@@ -125,6 +125,10 @@ Consume ==
                                       THEN <<"C04,C05:live-inode-count-differs-from-reference">> ELSE <<>>)
                                   \o (IF fr.valid /\ fr.since = "failed" /\ e.idle /\ e.running /\ FS!Frame(e) # fr.frame
                                       THEN <<"C09:failed-operation-changed-disk-or-allocators">> ELSE <<>>)
+                                  (* the assumption of the design model DirSlots: a live entry never changes its slot (judged *)
+                                  (* when at most one call lies between two snapshots, so no entry can have gone and come back) *)
+                                  \o (IF fr.frame # <<>> /\ fr.nmut <= 1 /\ FS!EntryMoved(fr.frame.dirs, e.dirs)
+                                      THEN <<"C13:live-directory-entry-changed-its-slot">> ELSE <<>>)
                          IN IF v = <<>> THEN UNCHANGED <<s, bad>>
                             ELSE Report(l, v, e) /\ UNCHANGED <<s, bad>>   \* the abstract state is still in step: go on
                     [] e.ev = "crashprobe" ->
